@@ -861,9 +861,8 @@ class Variable:
             # This the name of a derived type, as found in USE import statements
             return DerivedTypeSymbol(**kwargs)
 
-        if 'dimensions' in kwargs and not kwargs['dimensions']:
+        if 'dimensions' in kwargs and kwargs['dimensions'] is None:
             # Convenience: This way we can construct Scalar variables with `dimensions=None`
-            # (an empty tuple means "no subscripts given", too)
             kwargs.pop('dimensions')
 
         if kwargs.get('dimensions') is not None or (_type and _type.shape):
